@@ -67,12 +67,14 @@ CHECKS["C15"] = {
 CHECKS["C03"] = {
     "text": "Theorems (Coq): (1) over MuModel instrumented with the operational release/acquire view semantics driven ONLY by the memory "
             "order each site requests in the source (Gen/Sites.v): whatever a releaser had in its view is in the view of every later "
-            "acquirer, any threads/programs/schedules (C03_mutex_handoff); (2) every acquiring site is acquire, every releasing site release, "
+            "acquirer, any threads/programs/schedules (C03_mutex_handoff); likewise over OnceModel (the end of the once-function is in the "
+            "view of every nsync_run_once* return, C03_once_handoff) and CounterModel (the zeroing decrement is in the view of every later "
+            "return that reports 0, and a V is in the view of the P it wakes, C03_counter_handoff / _wake_handoff); (2) every acquiring site is acquire, every releasing site release, "
             "no plain store to the mutex word; publication sites of once/note/counter/waiting are release, observers acquire; (3) the whole "
             "atomic-site inventory (kind, order, target of all ~160 sites) regenerated from /repo equals the pinned one.  A vector-clock "
             "detector with the same rules runs over all scenario families, fed by the orders the executed macros really pass.",
     "design_ref": "DESIGN.md section 4, C03",
-    "note": "Execution-level theorem only for the condition-free mutex; other hand-offs: pinned orders + detector (coverage.partial). "
+    "note": "Execution-level theorems for mutex, once, counter; note flag and signal->waiter: order lemmas over the inventory + detector (coverage.partial). "
             "SC interleaving of the atomics themselves.",
     "technique": "Coq proof over view-instrumented model + pinned site inventory (reflexivity) + vector-clock race detection",
 }
